@@ -102,6 +102,12 @@ class QueueEvents(FnSpec):
             return
         raise Unsupported("with")
 
+    def on_field(self, ex, obj, field, write):
+        # frame: the translation does not depend on the filter - filtering happens only in queue_event, which is why the
+        # filtered stream is the isinstance-slice of the unfiltered one (C11)
+        if obj is self.me and field == "_event_filter":
+            ex.oblige("frame[queue_events does not consult the event filter: every event goes through queue_event, which alone filters]", False, kind="frame")
+
     def h_queue(self, ex, recv, args, kw, node):
         ex.oblige("queue_event-with-emitter-lock-held", "emitter._lock" in ex.held, kind="lock")
         ex.emit("out", args[0])
@@ -182,6 +188,7 @@ class QueueEvents(FnSpec):
         H[(watch.id, "_is_recursive")] = self.recursive
         H[(self.me.id, "_watch")] = watch
         H[(self.me.id, "_lock")] = VOpaque("lock", "emitter._lock")
+        H[(self.me.id, "_event_filter")] = ex.fresh(TOpt(TSet(W.EW.EvTT.tys[0])), "event_filter")
         inactive = ex.choose(2, "emitter inactive (_inotify is None)") == 1
         H[(self.me.id, "_inotify")] = None if inactive else VOpaque("buffer")
         self.inactive = inactive
@@ -225,6 +232,8 @@ class QueueEvents(FnSpec):
         marks = [r[0] for r in rows if len(r) == 1]
         tag = f"{self.shape}:{self.kind or 'IN_MOVED_FROM+IN_MOVED_TO'}{'|ISDIR' if self.isdir else ''}{',full' if self.full else ''}{',recursive' if self.recursive else ''}{',root' if is_root else ''}"
         subn = self.sub[2].n if (self.sub is not None and ("SUB_MOVED" in marks or "SUB_CREATED" in marks)) else z3.IntVal(0)
+        if "frame" in self.want:
+            ex.oblige(f"post[frame:{tag}: the number of events handed to queue_event is fixed by the record alone]", out.n == len(fixed) + subn)
         if "table" in self.want:
             ex.oblige(f"post[table:{tag}:count]", out.n == len(fixed) + subn)
             for i, (cls, s, d) in enumerate(fixed):
@@ -315,7 +324,13 @@ class OnThreadStart(FnSpec):
         def buf(ex, args, kw, node):
             self.buf_args = (args, kw)
             return VOpaque("buffer")
+        def pathfn(name):
+            # os.path.normpath/abspath/realpath: some path -> path function, NOT the identity (a watch path may be spelled
+            # with a trailing or doubled separator, '.', '..' or a symlink)
+            f = z3.Function("os_path_" + name, W.PS, W.PS)
+            return lambda ex, a, k, n: W.Path.wrap(f(W.Path.unwrap(a[0])))
         return {"os.fsencode": lambda ex, a, k, n: W.Path.wrap(W.fsencode(W.Path.unwrap(a[0]))), "InotifyBuffer": buf,
+                "os.path.normpath": pathfn("normpath"), "os.path.abspath": pathfn("abspath"), "os.path.realpath": pathfn("realpath"),
                 "InotifyEmitter.get_event_mask_from_filter": lambda ex, recv, a, k, n: VOpaque("mask")}
 
     def setup(self, ex):
